@@ -27,7 +27,7 @@ Definition pins_C02 : list (str * str) := [
 ].
 
 Definition pins_C03 : list (str * str) := [
-  (bs "in_toto/verifylib.go:VerifyArtifacts", bs "9921200034787a29");
+  (bs "in_toto/verifylib.go:VerifyArtifacts", bs "4e50df042fb6ad09");
   (bs "in_toto/verifylib.go:verifyMatchRule", bs "851728b427bfa95a");
   (bs "in_toto/verifylib.go:cleanArtifactPaths", bs "2abf222460472190");
   (bs "in_toto/rulelib.go:UnpackRule", bs "61582cd0f9e6be1a");
@@ -100,7 +100,7 @@ Definition pins_C09 : list (str * str) := [
   (bs "in_toto/verifylib.go:InTotoVerifyWithDirectory", bs "c38d943441f285e0");
   (bs "in_toto/verifylib.go:RunInspections", bs "aa3afdd6e6a73ccc");
   (bs "in_toto/runlib.go:InTotoRun", bs "ff683c08103d4ac5");
-  (bs "in_toto/verifylib.go:VerifyArtifacts", bs "9921200034787a29");
+  (bs "in_toto/verifylib.go:VerifyArtifacts", bs "4e50df042fb6ad09");
   (bs "in_toto/verifylib.go:verifyMatchRule", bs "851728b427bfa95a");
   (bs "in_toto/util.go:Set.Filter", bs "4b77e78520de3987")
 ].
